@@ -9,4 +9,10 @@ let () = register "c03.lex" (fun line ->
   let bs = bytes_of_hex (List.hd (split_ws line)) in
   fst (lex_model bs) ^ "\t-\t-")
 
+(* string literals made of escape sequences (valid and invalid forms of every kind): same observable as c03.lex; the
+   spec column is computed by the check (independent reading of the manual's escape rules) *)
+let () = register "c03.escape" (fun line ->
+  let bs = bytes_of_hex (List.hd (split_ws line)) in
+  fst (lex_model bs) ^ "\t-\t-")
+
 let () = main ()
